@@ -81,7 +81,7 @@ def run(cmd, timeout=600, cwd=None, env=None, input=None, check=False):
 
 def sync_gen():
     """Regenerate coq/Gen/*.v from REPO. Returns list of error strings."""
-    with Lock("coq"):
+    with Lock("gen"):
         rc, out, err = run([sys.executable, os.path.join(VERIF, "tools", "extract_consts.py"), REPO],
                            timeout=120)
     errs = []
@@ -315,19 +315,19 @@ def build_model(area, timeout=900):
     exe = os.path.join(outdir, "model_" + area)
     ev = os.path.join(COQ, "Extract", "Extract_%s.v" % area)
     main = os.path.join(VERIF, "model", "%s_main.ml" % area)
+    # fast path without the lock: inputs unchanged since the last successful build
+    cone = [f for f in dep_cone([os.path.relpath(ev, COQ)])]
+    h = hashlib.sha256()
+    for f in cone + [os.path.relpath(ev, COQ)]:
+        h.update(open(os.path.join(COQ, f), "rb").read())
+    h.update(open(main, "rb").read())
+    h.update(open(os.path.join(VERIF, "model", "common.ml"), "rb").read())
+    stamp = h.hexdigest()
+    sf = os.path.join(outdir, "stamp")
+    if os.path.exists(exe) and os.path.exists(sf) and open(sf).read() == stamp:
+        return exe, None
     with Lock("coq"):
         coq_makefile()
-        cone = [f for f in dep_cone([os.path.relpath(ev, COQ)])]
-        # stamp = hash of all inputs
-        h = hashlib.sha256()
-        for f in cone + [os.path.relpath(ev, COQ)]:
-            h.update(open(os.path.join(COQ, f), "rb").read())
-        h.update(open(main, "rb").read())
-        h.update(open(os.path.join(VERIF, "model", "common.ml"), "rb").read())
-        stamp = h.hexdigest()
-        sf = os.path.join(outdir, "stamp")
-        if os.path.exists(exe) and os.path.exists(sf) and open(sf).read() == stamp:
-            return exe, None
         deps = [f[:-2] + ".vo" for f in cone if "Extract/" not in f]
         if deps:
             rc, o, e = run(["make", "-f", "Makefile.coq", "-j%d" % NCPU] + deps, cwd=COQ, timeout=timeout)
